@@ -25,7 +25,21 @@ for seed, d in sorted(res.items()):
     if offset and os.path.exists(dst):
         print("EXISTS, not overwritten", dst)
         continue
-    confirmed = d.get("demo_clean_passes") and d.get("demo_patched_fails") and d.get("patch_applies") and d.get("compiles")
+    kind = "faulty"
+    try:
+        kind = json.load(open(os.path.join(seed, "meta.json"))).get("kind", "faulty")
+    except Exception:
+        pass
+    if kind == "benign":
+        # a behaviour-preserving refactoring: its regression demo passes with and without the change, the suite passes,
+        # and it is kept as a negative example (every check must stay silent on it)
+        confirmed = d.get("demo_clean_passes") and not d.get("demo_patched_fails") and d.get("patch_applies") and d.get("compiles")
+        dst = f"/verif/seeded/benign/{prop}-b{k}"
+        if os.path.exists(dst):
+            print("EXISTS, not overwritten", dst)
+            continue
+    else:
+        confirmed = d.get("demo_clean_passes") and d.get("demo_patched_fails") and d.get("patch_applies") and d.get("compiles")
     suite = d.get("suite", "")
     if confirmed and suite and "failed" in suite:
         print("SUITE NOT GREEN", seed, suite)
@@ -45,14 +59,18 @@ for seed, d in sorted(res.items()):
         except Exception:
             meta = {"raw_meta_unparsable": True}
     meta["property"] = prop
+    meta["kind"] = kind
     meta["confirmed_by_me"] = {
         "ran": "tools/seedcheck.py (scratch git worktree of /repo HEAD under /tmp, removed afterwards): demo on the clean worktree, "
         "git apply patch.diff, compileall, demo again, the 229-test suite in a private network namespace, then ./check <all 20> --repo <worktree>",
         "demo_on_clean_tree": "pass",
-        "demo_with_patch": "fail",
+        "demo_with_patch": "pass (behaviour-preserving change)" if kind == "benign" else "fail",
         "suite_with_patch": suite or "not run yet",
     }
     meta["checks_that_fire"] = {p: v for p, v in d.get("fired", {}).items()}
     meta["detected_by_own_property"] = d.get("detected_by_own_property")
     json.dump(meta, open(mp, "w"), indent=1)
-    print("imported", dst, "own" if d.get("detected_by_own_property") else "NOT-OWN", suite)
+    if kind == "benign":
+        print("imported benign", dst, "SILENT" if not d.get("fired") else f"NOISY {d.get('fired')}", suite)
+    else:
+        print("imported", dst, "own" if d.get("detected_by_own_property") else "NOT-OWN", suite)
